@@ -131,6 +131,85 @@ func (s *session) flush() {
 	s.q = s.q[:0]
 }
 
+// c04ctx: one history on the reference list; step offers one record and runs oracle + model.
+type c04ctx struct {
+	s        *session
+	w        *world
+	ref      list.AclList
+	refSt    list.Storage
+	g        *gen
+	branches map[string]bool
+	changed  bool
+}
+
+func (cx *c04ctx) step(author, prev int, cs []content, label string) bool {
+	s, w, ref, refSt, g, r := cx.s, cx.w, cx.ref, cx.refSt, cx.g, cx.s.r
+	branches := cx.branches
+	changed := false
+	pre := g.s
+	b := w.build(author, prev, cs, tamper{})
+	var stBefore list.Storage
+	var wBefore *world
+	if len(cs) > 1 {
+		stBefore = refSt.(copier).Copy()
+		wBefore = w.clone()
+	}
+	err, pan := addSafely(ref, b.raw)
+	if pan != "" {
+		r.Violate("C04", "", "acl.panic", "AddRawRecord panicked: "+pan, append(append([]string{}, w.lines...), b.line()))
+		return false
+	}
+	post := w.snapshot(ref)
+	e := errEnum(err)
+	if strings.HasPrefix(e, "other:") {
+		r.Fatal("unmapped error from AddRawRecord: " + e + " on " + b.line())
+	}
+	impl := "err " + e
+	if err == nil {
+		impl = "ok " + post.String()
+		w.accepted(b)
+		post = w.snapshot(ref) // the new record is now interned
+		impl = "ok " + post.String()
+	}
+	s.ask("", "acl.apply", w, b.line(), impl)
+	if os.Getenv("ACL_TRACE") != "" && strings.HasPrefix(label, "script.") {
+		fmt.Fprintf(os.Stderr, "%-28s %-60s %s\n", label, b.line(), strings.SplitN(impl, " A[", 2)[0])
+	}
+	r.Count("c04.kind." + label)
+	r.Count("c04.result." + e)
+	for _, c := range cs {
+		r.Count("c04.content." + c.K + "." + map[bool]string{true: "accepted", false: "rejected"}[err == nil])
+	}
+	if len(cs) > 1 {
+		r.Count("c04.multi." + map[bool]string{true: "accepted", false: "rejected"}[err == nil])
+	}
+	branches[e] = true
+	if err == nil {
+		if pre.String() != post.String() {
+			changed = true
+		}
+		if len(cs) > 1 {
+			s.splitOracle(w, wBefore, stBefore, author, cs, pre, post)
+		} else {
+			for _, v := range oracleC04(pre, post, author, cs) {
+				r.Count("c04.violation." + v.rule)
+				r.Violate("C04", v.sig, "acl.rules."+v.rule, v.desc+" | pre: "+pre.String()+" | post: "+post.String(), append([]string{}, w.lines...))
+			}
+		}
+		if n := len(post.owners()); n != 1 {
+			r.Violate("C04", "", "acl.rules.one-owner", fmt.Sprintf("%d owners after an accepted record: %s", n, post.String()), append([]string{}, w.lines...))
+		}
+	} else if pre.String() != post.String() {
+		// C03: a rejected record changes nothing
+		r.Violate("C03", "", "acl.reject-noop", "rejected record ("+e+") changed the state: "+pre.String()+" -> "+post.String(), append([]string{}, w.lines...))
+	}
+	g.s = post
+	if changed {
+		cx.changed = true
+	}
+	return true
+}
+
 // walkC04: one history on the reference list; every record goes through oracle and model.
 func (s *session) walkC04(steps int) {
 	r := s.r
@@ -149,15 +228,13 @@ func (s *session) walkC04(steps int) {
 		s.q = append(s.q, asked{"", "acl.root", w.lines[0], "ok " + g.s.String()})
 	}
 	defer s.flush()
-	branches := map[string]bool{}
-	changed := false
+	cx := &c04ctx{s: s, w: w, ref: ref, refSt: refSt, g: g, branches: map[string]bool{}}
 	for i := 0; i < steps && r.TimeLeft(); i++ {
 		pValid := 45
 		if i < 10 {
 			pValid = 80 // first build up an interesting state
 		}
 		author, cs, label := g.next(pValid)
-		pre := g.s
 		prev := len(w.recs) - 1
 		if r.Chance(3) { // chain guard: a record that does not extend the head
 			prev = r.Intn(len(w.recs) + 2)
@@ -165,61 +242,11 @@ func (s *session) walkC04(steps int) {
 				prev += 2
 			}
 		}
-		b := w.build(author, prev, cs, tamper{})
-		var stBefore list.Storage
-		var wBefore *world
-		if len(cs) > 1 {
-			stBefore = refSt.(copier).Copy()
-			wBefore = w.clone()
-		}
-		err, pan := addSafely(ref, b.raw)
-		if pan != "" {
-			r.Violate("C04", "", "acl.panic", "AddRawRecord panicked: "+pan, append(append([]string{}, w.lines...), b.line()))
+		if !cx.step(author, prev, cs, label) {
 			return
 		}
-		post := w.snapshot(ref)
-		e := errEnum(err)
-		if strings.HasPrefix(e, "other:") {
-			r.Fatal("unmapped error from AddRawRecord: " + e + " on " + b.line())
-		}
-		impl := "err " + e
-		if err == nil {
-			impl = "ok " + post.String()
-			w.accepted(b)
-			post = w.snapshot(ref) // the new record is now interned
-			impl = "ok " + post.String()
-		}
-		s.ask("", "acl.apply", w, b.line(), impl)
-		r.Count("c04.kind." + label)
-		r.Count("c04.result." + e)
-		for _, c := range cs {
-			r.Count("c04.content." + c.K + "." + map[bool]string{true: "accepted", false: "rejected"}[err == nil])
-		}
-		if len(cs) > 1 {
-			r.Count("c04.multi." + map[bool]string{true: "accepted", false: "rejected"}[err == nil])
-		}
-		branches[e] = true
-		if err == nil {
-			if pre.String() != post.String() {
-				changed = true
-			}
-			if len(cs) > 1 {
-				s.splitOracle(w, wBefore, stBefore, author, cs, pre, post)
-			} else {
-				for _, v := range oracleC04(pre, post, author, cs) {
-					r.Count("c04.violation." + v.rule)
-					r.Violate("C04", v.sig, "acl.rules."+v.rule, v.desc+" | pre: "+pre.String()+" | post: "+post.String(), append([]string{}, w.lines...))
-				}
-			}
-			if n := len(post.owners()); n != 1 {
-				r.Violate("C04", "", "acl.rules.one-owner", fmt.Sprintf("%d owners after an accepted record: %s", n, post.String()), append([]string{}, w.lines...))
-			}
-		} else if pre.String() != post.String() {
-			// C03: a rejected record changes nothing
-			r.Violate("C03", "", "acl.reject-noop", "rejected record ("+e+") changed the state: "+pre.String()+" -> "+post.String(), append([]string{}, w.lines...))
-		}
-		g.s = post
 	}
+	branches, changed := cx.branches, cx.changed
 	trace := strings.Join(w.lines, "\n")
 	r.Case(trace, len(branches) >= 2 && changed)
 	if len(w.lines) > 12 {
@@ -234,6 +261,7 @@ func Run(r *corr.Run) {
 		r.Fatal("cast: " + err.Error())
 	}
 	s := &session{r: r, c: c, useModel: len(r.ModelCmd) > 0 && os.Getenv("ACL_NOMODEL") == "", prop: os.Getenv("VERIF_PROPERTY")}
+	s.runScripts()
 	walks := r.Pick(900, 40000)
 	for i := 0; i < walks && r.TimeLeft(); i++ {
 		if i%4 == 3 && s.wants("C03") {
